@@ -1,7 +1,10 @@
 package props
 
 import (
+	"cmp"
+	"encoding/json"
 	"fmt"
+	"slices"
 
 	"godsverif/core"
 
@@ -234,8 +237,110 @@ func runC13Case[T comparable](c *core.Ctx, d *Dom[T], kind string) {
 			}
 		}
 	}
+	if kind == "TreeSet" && r.Bool() {
+		// the argument holds other representatives of the common classes than the
+		// receiver ("a" there, "A" here under a caseless order): only the
+		// comparator may decide what is common
+		mb = append([]T{}, mb...)
+		for i, x := range mb {
+			var alts []T
+			for _, v := range d.Alpha {
+				if cm.F(v, x) == 0 {
+					alts = append(alts, v)
+				}
+			}
+			if len(alts) > 1 {
+				mb[i] = alts[r.Intn(len(alts))]
+				c.Count("pair:other-representative-in-argument", 1)
+			}
+		}
+	}
 	runAlgebraOn(c, d, kind, cm, pk, ma, mb)
 }
+
+// runHugeAlgebra: an operand with a few hundred thousand members inserted in
+// strictly falling or rising order (the deepest trees a red-black tree gets)
+// against a small one, both ways round. Membership is known by construction.
+func runHugeAlgebra(c *core.Ctx, j int) {
+	n := 300000
+	if c.Tier == "thorough" {
+		n = 1500000
+	}
+	natural := func(a, b int) int { return cmp.Compare(a, b) }
+	var mk func() *algSet[int]
+	kind := []string{"TreeSet", "TreeSet", "LinkedHashSet", "HashSet"}[j%4]
+	switch kind {
+	case "TreeSet":
+		mk = func() *algSet[int] { return wrapTreeSet(treeset.NewWith[int](natural), natural) }
+	case "LinkedHashSet":
+		mk = func() *algSet[int] { return wrapLinkedSet(linkedhashset.New[int]()) }
+	default:
+		mk = func() *algSet[int] { return wrapHashSet(hashset.New[int]()) }
+	}
+	big, small := mk(), mk()
+	c.Begin(kind, "Add", n, "members, one by one, falling or rising")
+	for i := 0; i < n; i++ {
+		k := i
+		if j%2 == 0 {
+			k = n - 1 - i // falling
+		}
+		big.S.Add(k * 2) // the even numbers below 2n
+	}
+	smallM := []int{-5, 0, 1, 2, 3, n, n + 1, 2*n - 2, 2*n - 1, 2 * n, 2*n + 7}
+	small.S.Add(smallM...)
+	inBig := func(x int) bool { return x >= 0 && x < 2*n && x%2 == 0 }
+	common := 0
+	for _, x := range smallM {
+		if inBig(x) {
+			common++
+		}
+	}
+	check := func(op string, res *algSet[int], wantSize int, member func(int) bool) {
+		if sz := res.S.Size(); sz != wantSize {
+			c.Fail("members", "huge-count", "%s %s with a %d-member operand: result has Size %d, want %d", kind, op, n, sz, wantSize)
+		}
+		vs := res.S.Values()
+		if len(vs) != wantSize {
+			c.Fail("members", "huge-count", "%s %s with a %d-member operand: result enumerates %d members, want %d", kind, op, n, len(vs), wantSize)
+		}
+		for i, x := range vs {
+			if !member(x) {
+				c.Fail("members", "huge-extra", "%s %s with a %d-member operand: result contains %d", kind, op, n, x)
+			}
+			if kind == "TreeSet" && i > 0 && vs[i-1] >= x {
+				c.Fail("order", "result-not-sorted", "%s %s with a %d-member operand: result not ascending at position %d", kind, op, n, i)
+			}
+		}
+		for _, x := range append([]int{4, 2*n - 4, n - n%2}, smallM...) {
+			if res.S.Contains(x) != member(x) {
+				c.Fail("members", "huge-contains", "%s %s with a %d-member operand: result.Contains(%d) = %v", kind, op, n, x, !member(x))
+			}
+		}
+		if big.S.Size() != n || small.S.Size() != len(smallM) {
+			c.Fail("side-effect", "huge-operand-changed", "%s %s changed an operand's size (%d, %d)", kind, op, big.S.Size(), small.S.Size())
+		}
+		c.Count("obs:huge-algebra", 1)
+	}
+	inSmall := func(x int) bool { return slices.Contains(smallM, x) }
+	c.Begin(kind, "Union", "huge", "small")
+	check("Union(huge, small)", big.union(small), n+len(smallM)-common, func(x int) bool { return inBig(x) || inSmall(x) })
+	c.Begin(kind, "Union", "small", "huge")
+	check("Union(small, huge)", small.union(big), n+len(smallM)-common, func(x int) bool { return inBig(x) || inSmall(x) })
+	c.Begin(kind, "Intersection", "huge", "small")
+	check("Intersection(huge, small)", big.inter(small), common, func(x int) bool { return inBig(x) && inSmall(x) })
+	c.Begin(kind, "Intersection", "small", "huge")
+	check("Intersection(small, huge)", small.inter(big), common, func(x int) bool { return inBig(x) && inSmall(x) })
+	c.Begin(kind, "Difference", "huge", "small")
+	check("Difference(huge, small)", big.diff(small), n-common, func(x int) bool { return inBig(x) && !inSmall(x) })
+	c.Begin(kind, "Difference", "small", "huge")
+	check("Difference(small, huge)", small.diff(big), len(smallM)-common, func(x int) bool { return !inBig(x) && inSmall(x) })
+	c.Begin(kind, "Union", "huge", "huge")
+	check("Union(huge, huge)", big.union(big), n, inBig)
+	c.Count("obs:huge-algebra-cases", 1)
+	c.Nontrivial()
+}
+
+const hugeAlgebraCases = 4
 
 // runAlgebraOn builds the two operands from their member lists and checks the
 // three operations on them.
@@ -350,10 +455,19 @@ func runAlgebraOn[T comparable](c *core.Ctx, d *Dom[T], kind string, cm NamedCmp
 		// 5. independence: mutate each of the three in turn
 		fresh := d.Probe[r.Intn(len(d.Probe))]
 		mutate := func(s *algSet[T]) {
-			if r.Intn(4) == 0 {
+			switch r.Intn(8) {
+			case 0, 1:
 				s.S.Clear() // wholesale changes take other paths than Add/Remove
 				s.S.Add(fresh)
 				return
+			case 2:
+				// a load replaces the content by yet another path
+				if js, ok := s.raw.(jsonAPI); ok {
+					if data, err := json.Marshal([]T{fresh, d.Val(r)}); err == nil && js.FromJSON(data) == nil {
+						c.Count("obs:independence-probed-with-fromjson", 1)
+						return
+					}
+				}
 			}
 			s.S.Add(fresh)
 			if vs := s.S.Values(); len(vs) > 1 {
@@ -437,6 +551,10 @@ func (ar *algRestore[T]) restore() {
 }
 
 func runC13(c *core.Ctx) {
+	if c.Index < hugeAlgebraCases {
+		runHugeAlgebra(c, c.Index)
+		return
+	}
 	kind := []string{"HashSet", "LinkedHashSet", "TreeSet"}[c.Index%3]
 	if (c.Index/3)%499 == 77 {
 		runC13Case(c, IntDom(c.R.Range(1500, 2500)), kind)
@@ -469,6 +587,9 @@ func init() {
 			}
 			f.atLeast("pair:a-larger", 1000)
 			f.atLeast("pair:b-larger", 1000)
+			f.atLeast("pair:other-representative-in-argument", 1000)
+			f.atLeast("obs:independence-probed-with-fromjson", 1000)
+			f.atLeast("obs:huge-algebra-cases", hugeAlgebraCases)
 			for _, op := range []string{"Intersection", "Union", "Difference"} {
 				f.atLeast("obs:algebra-"+op, 5000)
 			}
